@@ -64,12 +64,29 @@ func Croak() *app.Res {
 	return rs
 }
 
+// TwoSinks: two nodes, each with a paginated sink of its own (a different
+// zero-size symbol), reachable from one another: the renderer of a long-lived
+// engine sees sink A, then sink B, then sink A again.
+func TwoSinks() *app.Res {
+	rs := app.NewRes()
+	rs.Funcs["ra"] = app.Static("ant\nbee\ncat\ndog\neel")
+	rs.Funcs["rb"] = app.Static("one\ntwo\nthree\nfour")
+	rs.Node("root", "a:\n{{.ra}}", app.Code().Load("ra", 0).Map("ra").MNext("fw", "8").MPrev("bk", "9").MOut("b", "1").Halt().
+		InCmp(">", "8").InCmp("<", "9").InCmp("other", "1").Bytes())
+	rs.Node("other", "b:\n{{.rb}}", app.Code().Load("rb", 0).Map("rb").MNext("fw", "8").MPrev("bk", "9").MOut("a", "0").Halt().
+		InCmp(">", "8").InCmp("<", "9").InCmp("_", "0").Bytes())
+	rs.Node("_catch", "oops", app.Code().MOut("back", "0").Halt().InCmp("_", "*").Bytes())
+	return rs
+}
+
 func Get(i int) *app.Res {
 	switch i {
 	case 0:
 		return Intro()
 	case 1:
 		return MenuSink()
+	case 3:
+		return TwoSinks()
 	}
 	return Croak()
 }
